@@ -112,6 +112,18 @@ def replay_doc(ctx, doc, n):
             got = prs.pc_conditional(df, by, on, group_weights=w)
             if not val_ok(got, res):
                 viol("wrong_value", f"= {got!r} want {res}")
+            if w is not None and n % 6 == 0:
+                # the caller's own weight vector (float ndarray / int ndarray / tuple): left untouched and reusable
+                for warr in (np.array(w, dtype=float), np.array(w), tuple(w)):
+                    keep = np.array(warr, dtype=float).copy()
+                    first = prs.pc_conditional(df, by, on, group_weights=warr)
+                    second = prs.pc_conditional(df, by, on, group_weights=warr)
+                    if not np.array_equal(np.array(warr, dtype=float), keep):
+                        viol("argument_mutated", f"group_weights {type(warr).__name__} {keep.tolist()} became {np.array(warr).tolist()}")
+                        break
+                    if not (val_ok(first, res) and val_ok(second, res)):
+                        viol("wrong_value_on_reuse", f"first {first!r} second {second!r} want {res}")
+                        break
         elif fn == "pc_grouped_cross":
             ctx.case(dict(fn=fn, tab=tab, joint=opt["joint"]), nontrivial=ngroups > 1)
             if ngroups < 2:
